@@ -356,7 +356,9 @@ pub fn on_run_start(code: &[u8], constants: &[Object]) {
         if !s.probes {
             return;
         }
-        // instruction boundaries by linear decoding
+        // instruction boundaries by linear decoding; constants loaded by a `Const` of the code as it is now
+        let const_op = table.iter().find(|t| t.1 == "Const").map(|t| t.0);
+        let mut loaded = vec![false; constants.len()];
         let mut ip = 0;
         while ip < code.len() {
             s.boundary[ip] = true;
@@ -365,13 +367,21 @@ pub fn on_run_start(code: &[u8], constants: &[Object]) {
                 Some(t) => t.2.iter().sum(),
                 None => break,
             };
+            if Some(b) == const_op && ip + 2 < code.len() {
+                let idx = code[ip + 1] as usize | (code[ip + 2] as usize) << 8;
+                if idx < loaded.len() {
+                    loaded[idx] = true;
+                }
+            }
             ip += 1 + width;
         }
-        // function regions: the body of a function value with entry E is preceded by `Jump end`
+        // function regions: the body of a function value with entry E is preceded by `Jump end`.
+        // Only functions that the code loads count: a retained compiler keeps the constants of a program it
+        // rejected, and the entry of such a left-over function points into code that was written later
         let jump = table.iter().find(|t| t.1 == "Jump").map(|t| t.0);
         let mut regions: Vec<(usize, usize)> = Vec::new();
-        for c in constants {
-            if c.tag() == Type::Function {
+        for (ci, c) in constants.iter().enumerate() {
+            if c.tag() == Type::Function && loaded[ci] {
                 let [entry, _] = c.as_function();
                 let entry = entry as usize;
                 s.entries.push(entry as u32);
